@@ -29,7 +29,7 @@ RULE = (
     "gives the same numbers.  Non-trivial: >=3 species nodes and >=1 duplication or transfer; distinct by SHA-1 of the case."
 )
 ASSUMPTIONS = ["positive node sizes and drawing parameters", "tolerance 1e-6 + 1e-9*|x| on coordinates"]
-BUDGET = {"quick": {"random": 1200}, "thorough": {"random": 20000}}
+BUDGET = {"quick": {"random": 5000}, "thorough": {"random": 60000}}
 
 
 def strategy(tier):
